@@ -271,6 +271,10 @@ def install():
     cds = sys.modules.get("spacepackets.ccsds.time.cds")
     if cds is not None:
         timestub.install_into(cds.__dict__, _saved, _MISSING)
+    from . import filestub
+    sq = sys.modules.get("spacepackets.seqcount")
+    if sq is not None:
+        filestub.install_into(sq.__dict__, _saved, _MISSING)
     _installed = True
 
 
@@ -290,6 +294,8 @@ def uninstall():
         else:
             d[k] = v
     del _saved[:]
+    from .core import set_format_hook
+    set_format_hook(None)
     _installed = False
 
 
